@@ -96,7 +96,43 @@ func (h *VP9FrameHeader) Encode(n int, seed byte) []byte {
 			if !h.ErrorResilient {
 				w.Put(0, 2) // reset_frame_context
 			}
-			w.Put(0xA5, 8) // refresh_frame_flags and beyond: not interpreted by the RTP layer
+			if h.IntraOnly && !h.ShowFrame {
+				// the real layout of an intra-only frame (VP9 bitstream 6.2): sync code, colour
+				// configuration for profiles above 0, refresh_frame_flags, frame size. The library
+				// does not read it; it is written so that truncations cut through real syntax.
+				w.Put(0x49, 8)
+				w.Put(0x83, 8)
+				w.Put(0x42, 8)
+				if h.Profile > 0 {
+					if h.Profile >= 2 {
+						w.Flag(h.TwelveBit)
+					}
+					w.Put(uint64(h.ColorSpace), 3)
+					if h.ColorSpace != 7 {
+						w.Flag(h.ColorRange)
+						if h.Profile == 1 || h.Profile == 3 {
+							w.Flag(h.SubX)
+							w.Flag(h.SubY)
+							w.Put(0, 1)
+						}
+					} else if h.Profile == 1 || h.Profile == 3 {
+						w.Put(0, 1)
+					}
+				}
+				w.Put(0xA5, 8) // refresh_frame_flags
+				wd, ht := h.Width, h.Height
+				if wd < 1 {
+					wd = 64
+				}
+				if ht < 1 {
+					ht = 48
+				}
+				w.Put(uint64(wd-1), 16)
+				w.Put(uint64(ht-1), 16)
+				w.Put(0, 1) // render_and_frame_size_different
+			} else {
+				w.Put(0xA5, 8) // refresh_frame_flags and beyond: not interpreted by the RTP layer
+			}
 		}
 	}
 	b := w.Buf
